@@ -319,10 +319,13 @@ def run_lines(exe, lines, timeout=600, shards=NPROC):
 
 # ----------------------------------------------------------------- known findings
 def known_findings(pid):
-    p = os.path.join(ROOT, 'known_findings.json')
-    if not os.path.exists(p):
-        return []
-    return [k for k in json.load(open(p)) if k.get('property') == pid and k.get('status') == 'known']
+    """entries with status "known" for this property, from known_findings.json and known_findings.d/<pid>.json
+    (both committed; never written at run time)"""
+    out = []
+    for p in (os.path.join(ROOT, 'known_findings.json'), os.path.join(ROOT, 'known_findings.d', pid + '.json')):
+        if os.path.exists(p):
+            out += [k for k in json.load(open(p)) if k.get('property') == pid and k.get('status') == 'known']
+    return out
 
 
 # ----------------------------------------------------------------- the generic check
@@ -388,6 +391,7 @@ def run_check(prop, argv):
     bit_exact = 0
     impl = model = []
     evaluations = 0
+    listed = {k['id']: k for k in known_findings(pid) if 'id' in k}
     for profile in profiles:
         if not (hok and mok and cases):
             break
@@ -416,8 +420,9 @@ def run_check(prop, argv):
             v = prop.judge(c, i)
             if v:
                 k = getattr(prop, 'known', lambda c, i, v: None)(c, i, v)
-                if k:
-                    knowns.setdefault(k, c)
+                # a finding is honoured only if known_findings.json (committed, never written at run time) lists its id
+                if k and k.split()[0].rstrip(':') in listed:
+                    knowns.setdefault(k.split()[0].rstrip(':'), c)
                 else:
                     viols.append((c, i, m, v, profile))
             elif not compare(c, i, m):
@@ -433,7 +438,7 @@ def run_check(prop, argv):
 
     out_lines = []
     for k, c in knowns.items():
-        out_lines.append('KNOWN-FINDING: property=%s %s' % (pid, k))
+        out_lines.append('KNOWN-FINDING: property=%s %s %s' % (pid, k, listed[k].get('what', '')))
     if viols:
         viols.sort(key=lambda t: len(t[0].line))
         c, i, m, v, profile = viols[0]
